@@ -3,6 +3,7 @@ package check
 import (
 	"fmt"
 	"go/ast"
+	"go/constant"
 	"go/token"
 	"go/types"
 	"os"
@@ -12,6 +13,7 @@ import (
 	"strings"
 
 	"golang.org/x/tools/go/packages"
+	"golang.org/x/tools/go/ssa"
 )
 
 // builtinEntry is one row of the table in newBuiltins.
@@ -353,6 +355,99 @@ func runBuiltinSig(c *Ctx, r *Reporter) {
 	}
 	// documentation
 	checkBuiltinDocs(c, p, pkg, table, r)
+	checkDocumentedSpellings(c, p, pkg, r)
+}
+
+// checkDocumentedSpellings: where the documentation of a built-in enumerates the exact strings it accepts
+// (str2bool: "true", "True", "TRUE", "1", "false", "False", "FALSE", "0"), the implementation decides on exactly
+// these string constants — in its own body or in a helper of the package it calls — and does not hand the decision
+// to a library parser that accepts more (strconv.ParseBool also takes "t", "T", "f", "F").
+func checkDocumentedSpellings(c *Ctx, p *Program, pkg *packages.Package, r *Reporter) {
+	b, err := os.ReadFile(filepath.Join(c.Repo, "docs", "builtins.md"))
+	if err != nil {
+		r.Undecided("docs/builtins.md: %v", err)
+		return
+	}
+	for _, spec := range []struct{ name, impl string }{{"str2bool", "str2boolFunc"}} {
+		// section of the built-in, code fences removed
+		var sec []string
+		in, fence := false, false
+		for _, line := range strings.Split(string(b), "\n") {
+			if strings.HasPrefix(line, "### ") || strings.HasPrefix(line, "## ") {
+				in = strings.TrimSpace(strings.Trim(strings.TrimLeft(line, "# "), "`")) == spec.name
+				continue
+			}
+			if !in {
+				continue
+			}
+			if strings.HasPrefix(strings.TrimSpace(line), "```") {
+				fence = !fence
+				continue
+			}
+			if !fence {
+				sec = append(sec, line)
+			}
+		}
+		doc := map[string]bool{}
+		for _, m := range regexp.MustCompile("`\"([^\"`]*)\"`").FindAllStringSubmatch(strings.Join(sec, "\n"), -1) {
+			doc[m[1]] = true
+		}
+		construct := "builtin:" + spec.name + "#documented-spellings"
+		if len(doc) < 2 {
+			r.Undecided("docs/builtins.md: the section of %s does not enumerate accepted strings any more", spec.name)
+			continue
+		}
+		fd := FindFunc(pkg, spec.impl)
+		if fd == nil {
+			r.Undecided("%s not found", spec.impl)
+			continue
+		}
+		impl := map[string]bool{}
+		library := ""
+		var visit func(fn *ssa.Function, depth int)
+		seen := map[*ssa.Function]bool{}
+		visit = func(fn *ssa.Function, depth int) {
+			if fn == nil || seen[fn] || depth > 2 {
+				return
+			}
+			seen[fn] = true
+			for _, blk := range fn.Blocks {
+				for _, ins := range blk.Instrs {
+					switch x := ins.(type) {
+					case *ssa.BinOp:
+						if x.Op == token.EQL || x.Op == token.NEQ {
+							for _, o := range []ssa.Value{x.X, x.Y} {
+								if k, ok := o.(*ssa.Const); ok && k.Value != nil && k.Value.Kind() == constant.String {
+									impl[constant.StringVal(k.Value)] = true
+								}
+							}
+						}
+					case *ssa.Call:
+						sc := x.Call.StaticCallee()
+						if sc == nil || sc.Pkg == nil {
+							continue
+						}
+						if sc.Pkg.Pkg == pkg.Types {
+							if n := sc.Name(); n != "resetGlobalErr" && n != "setGlobalErr" {
+								visit(sc, depth+1)
+							}
+						} else if sc.Pkg.Pkg.Path() == "strconv" && strings.HasPrefix(sc.Name(), "Parse") {
+							library = "strconv." + sc.Name()
+						}
+					}
+				}
+			}
+		}
+		visit(p.SSAFunc(fd.Obj), 0)
+		switch {
+		case library != "":
+			r.Viol(construct, p.Rel(fd.Decl.Pos()), fmt.Sprintf("the documentation of %s lists the accepted strings (%s), but the implementation hands the decision to %s, which accepts further spellings (t, T, f, F): they convert without setting err", spec.name, setString(doc), library))
+		case !sameSet(doc, impl):
+			r.Viol(construct, p.Rel(fd.Decl.Pos()), fmt.Sprintf("the documentation of %s lists the accepted strings {%s}, the implementation decides on {%s}", spec.name, setString(doc), setString(impl)))
+		default:
+			r.Ok(construct, p.Rel(fd.Decl.Pos()), "the implementation decides on exactly the documented strings: "+setString(doc))
+		}
+	}
 }
 
 type lenFacts struct{ lo int }
